@@ -140,7 +140,8 @@ ABSL_ATTRIBUTE_NOINLINE void GarbageCollector<R>::keep_reclaim() noexcept {
   ::std::vector<ReclaimTask> tasks;
   size_t backoff_us = 1000;
   tasks.reserve(batch);
-  while (running) {
+  // 收到停止标记后，已经取出但尚未到期的任务依然需要等待回收完成
+  while (running || index < tasks.size()) {
     if (index == tasks.size()) {
       tasks.clear();
       running = consume_reclaim_task(batch, tasks);
